@@ -1,8 +1,14 @@
 (* MV.C09.PersistModel — executable sequential model (layer C) of actor persistence in
    engine/vivid: actor_context.go (StateChanged, SaveSnapshot, Persistence, recoveryPersistence,
    tryRestarted, tryTerminated, processMessage's message/sender registers), persistence/state.go
-   (State: snapshot + events journal) and persistence/memory_storage.go (one record per name; Save
-   KEEPS THE CALLER'S SLICE, so the stored record aliases the live journal's backing array).
+   (State: snapshot + events journal) and persistence/memory_storage.go (one record per name; as
+   shipped, Save KEPT THE CALLER'S SLICE, so the stored record aliased the live journal's backing
+   array; repaired, it stores a copy).
+
+   Storage.Save may FAIL: the operations [PersistF], [FailF], [StopRecreateF] are [Persist], [Fail],
+   [StopRecreate] with a Save that is called with the same arguments, returns an error and leaves the
+   storage as it was (ctx.Persistence() hands the error to its caller; on restart and termination it
+   is logged). Load and Clear never fail; there are no partial writes.
 
    Go slices are modelled with an explicit heap of backing arrays: a slice is (array id, length),
    its capacity is the length of the array; [append] writes in place when there is room and
@@ -13,13 +19,22 @@
    in the repository's own persistence test); on OnPersistenceSnapshot it calls SaveSnapshot(full state);
    on a snapshot message it replaces its state.
 
-   Two confirmed small defects are modelled REPAIRED ([repaired]); the behaviour of the code as it is
-   is kept as the variant [as_is] (used only by Examples):
+   Confirmed small defects are modelled REPAIRED ([repaired]); the behaviour of the code as it was
+   shipped is kept behind variant flags (used only by Examples and _refuted theorems):
      v_seed    : State.Load seeds the journal with (a copy of) the stored record
-                 (fixes/C09-journal-seed.patch); as is, a re-created context starts an empty journal
+                 (fixes/C09-journal-seed.patch); as shipped, a re-created context starts an empty journal
                  and its next persist overwrites the stored history;
      v_restore : StateChanged restores ctx.message/ctx.sender after the threshold snapshot request
-                 (fixes/C09-restore-message.patch). *)
+                 (fixes/C09-restore-message.patch);
+     v_save_copies : MemoryStorage.Save stores a copy of the events (fixes/C09-memory-storage-copy.patch);
+                 as shipped the record is the journal's own slice and later in-place appends overwrite it —
+                 visible as soon as a save fails;
+     v_norec_resets : State.Load empties the runtime journal when nothing is stored
+                 (fixes/C09-no-record-resets-journal.patch); as shipped a restart whose save failed before
+                 any record existed kept the old instance's events in the journal;
+     v_load_copies : State.Load copies the stored events into the journal (part of the journal-seed repair).
+                 [false] = the journal ADOPTS the storage's slice: not a shipped behaviour, a seeded change the
+                 check must detect (C09_load_adopts_storage_slice_refuted). *)
 From MV Require Import Lib.ListX.
 
 (* ------------------------------------------------------------------ messages, ops, outputs *)
@@ -32,7 +47,10 @@ Inductive op :=
 | Fail                     (* the handler panics; the supervisor restarts the actor at once *)
 | StopRecreate (th : Z)    (* terminate; then a NEW actor context under the same persistence name, threshold th *)
 | Persist                  (* the handler calls ctx.Persistence() *)
-| Query.                   (* ask for the current state *)
+| Query                    (* ask for the current state *)
+| PersistF                 (* Persist, Fail, StopRecreate with a Storage.Save that returns an error *)
+| FailF
+| StopRecreateF (th : Z).
 
 Inductive rmsg := RSnap (s : list Z) | REv (e : Z).      (* a message delivered during recovery *)
 
@@ -46,7 +64,9 @@ Inductive out :=
        received while recovering, results of StateChanged during replay, state of the new instance after launch *)
 | OSaved (saved : saved_rec)
 | OState (st : list Z)
-| OBad.                    (* never produced by the model: timeout / panic / unrepresentable output *)
+| OBad                     (* never produced by the model: timeout / panic / unrepresentable output *)
+| OSaveFailed (o : out).   (* the output [o] of a step whose Storage.Save was called (with the record shown in [o]) and
+                              returned an error; for PersistF the handler got that error from ctx.Persistence() *)
 
 (* ------------------------------------------------------------------ heap of backing arrays *)
 
@@ -117,10 +137,28 @@ Definition set_storage (c : ctx) (r : option record) : ctx :=
    order event-sourcing frameworks prescribe). With the code as it is — and also with the two repairs — the
    threshold snapshot is requested inside StateChanged, i.e. before that actor has applied the event, and
    SaveSnapshot then drops the event from the journal: see C09_record_first_recovery_refuted. *)
-Record variant := { v_seed : bool; v_restore : bool; v_record_first : bool }.
-Definition repaired : variant := {| v_seed := true; v_restore := true; v_record_first := false |}.
-Definition as_is : variant := {| v_seed := false; v_restore := false; v_record_first := false |}.
-Definition repaired_record_first : variant := {| v_seed := true; v_restore := true; v_record_first := true |}.
+Record variant := { v_seed : bool; v_restore : bool; v_record_first : bool;
+                    v_save_copies : bool; v_load_copies : bool; v_norec_resets : bool }.
+Definition repaired : variant :=
+  {| v_seed := true; v_restore := true; v_record_first := false;
+     v_save_copies := true; v_load_copies := true; v_norec_resets := true |}.
+(* the code as it was first examined: none of the repairs *)
+Definition as_is : variant :=
+  {| v_seed := false; v_restore := false; v_record_first := false;
+     v_save_copies := false; v_load_copies := true; v_norec_resets := false |}.
+Definition repaired_record_first : variant :=
+  {| v_seed := true; v_restore := true; v_record_first := true;
+     v_save_copies := true; v_load_copies := true; v_norec_resets := true |}.
+(* [repaired] with ONE repair (or, for the third, one seeded change) taken back *)
+Definition save_aliases : variant :=     (* MemoryStorage.Save as shipped *)
+  {| v_seed := true; v_restore := true; v_record_first := false;
+     v_save_copies := false; v_load_copies := true; v_norec_resets := true |}.
+Definition norec_keeps_journal : variant :=  (* State.Load as shipped when nothing is stored *)
+  {| v_seed := true; v_restore := true; v_record_first := false;
+     v_save_copies := true; v_load_copies := true; v_norec_resets := false |}.
+Definition load_adopts : variant :=      (* seeded: s.events = events *)
+  {| v_seed := true; v_restore := true; v_record_first := false;
+     v_save_copies := true; v_load_copies := false; v_norec_resets := true |}.
 
 (* ------------------------------------------------------------------ persistence.State *)
 
@@ -135,24 +173,43 @@ Definition j_save_snapshot (c : ctx) (snap : list Z) : ctx :=
 
 Definition event_count (c : ctx) : Z := Z.of_nat (s_len (j_events (jr c))).
 
-(* State.Persist + MemoryStorage.Save: nothing when there is neither snapshot nor event; otherwise the
-   record keeps the journal's slice itself (aliasing). Second component: what Save received. *)
-Definition persist (c : ctx) : ctx * saved_rec :=
+(* State.Persist + Storage.Save: nothing (Save is not called) when there is neither snapshot nor event. Otherwise
+   Save receives the snapshot and the journal's slice — second component: what it received. With [fault] it
+   returns an error and the storage stays as it was. Otherwise MemoryStorage.Save replaces the record: by a copy of
+   the events (append([]Event(nil), events...)); as shipped, by the journal's slice itself (aliasing). *)
+Definition persist (v : variant) (g : nat -> nat -> nat) (fault : bool) (c : ctx) : ctx * saved_rec :=
   match j_snap (jr c), s_len (j_events (jr c)) with
   | None, O => (c, None)
-  | _, _ => (set_storage c (Some (j_snap (jr c), j_events (jr c))),
-             Some (j_snap (jr c), contents (hp c) (j_events (jr c))))
+  | _, _ =>
+      let received := Some (j_snap (jr c), contents (hp c) (j_events (jr c))) in
+      if fault then (c, received)
+      else if v_save_copies v then
+        let (h', s') := sl_copy g (hp c) (j_events (jr c)) in
+        (set_storage (set_hp_jr c h' (jr c)) (Some (j_snap (jr c), s')), received)
+      else (set_storage c (Some (j_snap (jr c), j_events (jr c))), received)
   end.
 
-(* State.Load + MemoryStorage.Load: returns the stored snapshot and the stored events SLICE; the repaired
-   code also makes the journal continue from a copy of the stored record *)
+(* the output of a step that persisted: wrapped in OSaveFailed when Save was called and returned an error *)
+Definition mark (fault : bool) (saved : saved_rec) (o : out) : out :=
+  match fault, saved with
+  | true, Some _ => OSaveFailed o
+  | _, _ => o
+  end.
+
+Definition empty_journal : journal := {| j_snap := None; j_events := nil_slice |}.
+
+(* State.Load + MemoryStorage.Load: returns the stored snapshot and the stored events SLICE; the repaired code also
+   makes the journal continue from a copy of the stored record, and from nothing when nothing is stored
+   (ErrorPersistenceNotHasRecord) *)
 Definition state_load (v : variant) (g : nat -> nat -> nat) (c : ctx) : ctx * option record :=
   match storage c with
-  | None => (c, None)
+  | None => (if v_norec_resets v then set_hp_jr c (hp c) empty_journal else c, None)
   | Some (snap, evs) =>
       if v_seed v then
-        let (h', s') := sl_copy g (hp c) evs in
-        (set_hp_jr c h' {| j_snap := snap; j_events := s' |}, Some (snap, evs))
+        if v_load_copies v then
+          let (h', s') := sl_copy g (hp c) evs in
+          (set_hp_jr c h' {| j_snap := snap; j_events := s' |}, Some (snap, evs))
+        else (set_hp_jr c (hp c) {| j_snap := snap; j_events := evs |}, Some (snap, evs))
       else (c, Some (snap, evs))
   end.
 
@@ -227,29 +284,36 @@ Definition launch (v : variant) (g : nat -> nat -> nat) (c : ctx) : ctx * list r
 
 (* tryRestarted: (OnTerminate, OnTerminated to the old instance: ignored), persist, new instance from the
    provider, OnLaunch. The context and therefore the journal are kept. *)
-Definition fail (v : variant) (g : nat -> nat -> nat) (c : ctx) : ctx * out :=
-  let (c1, saved) := persist (set_regs c MCrash WNone) in
+Definition fail (v : variant) (g : nat -> nat -> nat) (fault : bool) (c : ctx) : ctx * out :=
+  let (c1, saved) := persist v g fault (set_regs c MCrash WNone) in
   let '(c2, trace, counts) := launch v g (set_actor c1 [] false) in
-  (c2, OLaunch saved trace counts (actor c2)).
+  (c2, mark fault saved (OLaunch saved trace counts (actor c2))).
 
 (* tryTerminated: persist. ActorOf under the same persistence name: a new context, hence a fresh journal
    (initPersistenceState), same storage; OnLaunch. *)
 Definition fresh_ctx (h : heap) (st : option record) (th : Z) : ctx :=
-  {| hp := h; jr := {| j_snap := None; j_events := nil_slice |}; recovering := false; threshold := th;
+  {| hp := h; jr := empty_journal; recovering := false; threshold := th;
      cur_msg := MOther; cur_sender := WNone; actor := []; snapreq_seen := false; storage := st |}.
 
-Definition stop_recreate (v : variant) (g : nat -> nat -> nat) (c : ctx) (th : Z) : ctx * out :=
-  let (c1, saved) := persist c in
+Definition stop_recreate (v : variant) (g : nat -> nat -> nat) (fault : bool) (c : ctx) (th : Z) : ctx * out :=
+  let (c1, saved) := persist v g fault c in
   let '(c2, trace, counts) := launch v g (fresh_ctx (hp c1) (storage c1) th) in
-  (c2, OLaunch saved trace counts (actor c2)).
+  (c2, mark fault saved (OLaunch saved trace counts (actor c2))).
+
+(* the handler calls ctx.Persistence() and answers with its result *)
+Definition explicit_persist (v : variant) (g : nat -> nat -> nat) (fault : bool) (c : ctx) : ctx * out :=
+  let (c1, saved) := persist v g fault (set_regs c MPersist WAsker) in (c1, mark fault saved (OSaved saved)).
 
 Definition step (v : variant) (g : nat -> nat -> nat) (c : ctx) (o : op) : ctx * out :=
   match o with
   | Event e => let '(c1, (num, m, w, sr)) := process_add v g c WAsker e in (c1, OEvent num m w sr)
-  | Fail => fail v g c
-  | StopRecreate th => stop_recreate v g c th
-  | Persist => let (c1, saved) := persist (set_regs c MPersist WAsker) in (c1, OSaved saved)
+  | Fail => fail v g false c
+  | StopRecreate th => stop_recreate v g false c th
+  | Persist => explicit_persist v g false c
   | Query => (set_regs c MQuery WAsker, OState (actor c))
+  | FailF => fail v g true c
+  | StopRecreateF th => stop_recreate v g true c th
+  | PersistF => explicit_persist v g true c
   end.
 
 Definition init (v : variant) (g : nat -> nat -> nat) (th : Z) : ctx :=
@@ -270,13 +334,16 @@ Definition go_grow (oldcap needed : nat) : nat := 2 * oldcap.
 
 (* ------------------------------------------------------------------ abstract journal (specification) *)
 
-(* The journal as a plain pair: the last snapshot (if any) and the events recorded since, in order. *)
-Record ajr := { a_th : Z; a_snap : option (list Z); a_tail : list Z }.
+(* The journal as a plain pair: the last snapshot (if any) and the events recorded since, in order; and the record
+   the storage holds under the persistence name (None: nothing was ever saved successfully), as plain lists. *)
+Definition arecord := (option (list Z) * list Z)%type.
+Record ajr := { a_th : Z; a_snap : option (list Z); a_tail : list Z; a_stored : option arecord }.
 
 Definition snap_list (s : option (list Z)) : list Z := match s with Some l => l | None => [] end.
 Definition snap_items (s : option (list Z)) : list rmsg := match s with Some l => [RSnap l] | None => [] end.
 
 Definition a_state (a : ajr) : list Z := snap_list (a_snap a) ++ a_tail a.
+(* what a persist hands to Storage.Save (None: nothing to save, Save is not called) *)
 Definition a_saved (a : ajr) : saved_rec :=
   match a_snap a, a_tail a with
   | None, [] => None
@@ -284,7 +351,28 @@ Definition a_saved (a : ajr) : saved_rec :=
   end.
 Definition a_trace (a : ajr) : list rmsg := snap_items (a_snap a) ++ map REv (a_tail a).
 Definition a_counts (a : ajr) : list Z := repeat (Z.of_nat (length (a_tail a))) (length (a_tail a)).
-Definition a_launch (a : ajr) : out := OLaunch (a_saved a) (a_trace a) (a_counts a) (a_state a).
+
+(* persist: a successful Save with something to save replaces the stored record; a failing one changes nothing *)
+Definition a_persist (fault : bool) (a : ajr) : ajr :=
+  match fault, a_saved a with
+  | false, Some r => {| a_th := a_th a; a_snap := a_snap a; a_tail := a_tail a; a_stored := Some r |}
+  | _, _ => a
+  end.
+
+(* launch with threshold th: the journal (and the new instance's state) become what is stored; nothing if nothing is *)
+Definition a_recover (th : Z) (a : ajr) : ajr :=
+  match a_stored a with
+  | Some (s, t) => {| a_th := th; a_snap := s; a_tail := t; a_stored := a_stored a |}
+  | None => {| a_th := th; a_snap := None; a_tail := []; a_stored := None |}
+  end.
+
+(* restart / stop + re-create: the persist is attempted, then the launch recovers what is stored *)
+Definition a_relaunch (fault : bool) (th : Z) (a : ajr) : ajr * out :=
+  let a' := a_recover th (a_persist fault a) in
+  (a', mark fault (a_saved a) (OLaunch (a_saved a) (a_trace a') (a_counts a') (a_state a'))).
+
+Definition a_explicit (fault : bool) (a : ajr) : ajr * out :=
+  (a_persist fault a, mark fault (a_saved a) (OSaved (a_saved a))).
 
 Definition astep (a : ajr) (o : op) : ajr * out :=
   match o with
@@ -292,12 +380,17 @@ Definition astep (a : ajr) (o : op) : ajr * out :=
       let t := a_tail a ++ [e] in
       let num := Z.of_nat (length t) in
       if (a_th a <=? num)%Z
-      then ({| a_th := a_th a; a_snap := Some (a_state a ++ [e]); a_tail := [] |}, OEvent num (MAdd e) WAsker true)
-      else ({| a_th := a_th a; a_snap := a_snap a; a_tail := t |}, OEvent num (MAdd e) WAsker false)
-  | Fail => (a, a_launch a)
-  | StopRecreate th => ({| a_th := th; a_snap := a_snap a; a_tail := a_tail a |}, a_launch a)
-  | Persist => (a, OSaved (a_saved a))
+      then ({| a_th := a_th a; a_snap := Some (a_state a ++ [e]); a_tail := []; a_stored := a_stored a |},
+            OEvent num (MAdd e) WAsker true)
+      else ({| a_th := a_th a; a_snap := a_snap a; a_tail := t; a_stored := a_stored a |},
+            OEvent num (MAdd e) WAsker false)
+  | Fail => a_relaunch false (a_th a) a
+  | StopRecreate th => a_relaunch false th a
+  | Persist => a_explicit false a
   | Query => (a, OState (a_state a))
+  | FailF => a_relaunch true (a_th a) a
+  | StopRecreateF th => a_relaunch true th a
+  | PersistF => a_explicit true a
   end.
 
 Fixpoint arun_from (a : ajr) (ops : list op) : ajr * list out :=
@@ -306,19 +399,74 @@ Fixpoint arun_from (a : ajr) (ops : list op) : ajr * list out :=
   | o :: t => let (a1, x) := astep a o in let (a2, xs) := arun_from a1 t in (a2, x :: xs)
   end.
 
-Definition ainit (th : Z) : ajr := {| a_th := th; a_snap := None; a_tail := [] |}.
+Definition ainit (th : Z) : ajr := {| a_th := th; a_snap := None; a_tail := []; a_stored := None |}.
 Definition arun (th : Z) (ops : list op) : ajr * list out := arun_from (ainit th) ops.
+
+(* ------------------------------------------------------------------ vocabulary of the theorems *)
 
 (* every event recorded by a history, in order *)
 Definition recorded (ops : list op) : list Z :=
   flat_map (fun o => match o with Event e => [e] | _ => [] end) ops.
 
 Definition is_relaunch (o : op) : bool :=
-  match o with Fail | StopRecreate _ => true | _ => false end.
+  match o with Fail | StopRecreate _ | FailF | StopRecreateF _ => true | _ => false end.
 
-Definition launch_state (o : out) : option (list Z) :=
-  match o with OLaunch _ _ _ st => Some st | _ => None end.
+(* the operation comes with a failing Storage.Save *)
+Definition faulty (o : op) : bool :=
+  match o with PersistF | FailF | StopRecreateF _ => true | _ => false end.
+Definition fault_free (ops : list op) : bool := forallb (fun o => negb (faulty o)) ops.
+
+(* operations during which no Save returns nil: events, queries and everything with a failing save *)
+Definition saves_nothing (o : op) : bool :=
+  match o with Event _ | Query => true | _ => faulty o end.
+
+(* What a history means for the actor, by a plain recursion over it and nothing else (no journal, no threshold, no
+   storage): [live] is the state of the current instance, [pers] the state the actor had at the last Storage.Save
+   that returned nil (nothing yet: the empty state).
+     an event extends live;
+     a successful persist (explicit, or the one of a restart / stop + re-create) makes pers := live
+       (when live is empty there is nothing to save and Save is not even called: pers is empty too, see
+        PersistProofs.track_spec, so pers := live is still right);
+     a failing persist leaves pers alone;
+     every launch — after a successful or a failing persist — starts the new instance from pers. *)
+Fixpoint track (live pers : list Z) (ops : list op) : list Z * list Z :=
+  match ops with
+  | [] => (live, pers)
+  | o :: t =>
+      match o with
+      | Event e => track (live ++ [e]) pers t
+      | Persist => track live live t
+      | Fail | StopRecreate _ => track live live t
+      | Query | PersistF => track live pers t
+      | FailF | StopRecreateF _ => track pers pers t
+      end
+  end.
+
+Definition live_state (ops : list op) : list Z := fst (track [] [] ops).
+(* the state the actor had when it last persisted SUCCESSFULLY in the history ops *)
+Definition last_persisted (ops : list op) : list Z := snd (track [] [] ops).
+
+Fixpoint launch_state (o : out) : option (list Z) :=
+  match o with
+  | OLaunch _ _ _ st => Some st
+  | OSaveFailed o' => launch_state o'
+  | _ => None
+  end.
+
+(* the step's output without the failure mark *)
+Definition unmarked (o : out) : out := match o with OSaveFailed o' => o' | _ => o end.
 
 (* the concrete journal seen through the heap *)
 Definition journal_view (c : ctx) : option (list Z) * list Z :=
   (j_snap (jr c), contents (hp c) (j_events (jr c))).
+
+(* what a Load would return now: the stored record seen through the heap *)
+Definition stored_view (c : ctx) : option arecord :=
+  match storage c with
+  | Some (sn, s) => Some (sn, contents (hp c) s)
+  | None => None
+  end.
+
+(* the state a launch rebuilds from a record: the snapshot, then the events (nothing stored: the empty state) *)
+Definition rebuilds (r : option arecord) : list Z :=
+  match r with Some (sn, t) => snap_list sn ++ t | None => [] end.
